@@ -113,11 +113,8 @@ Definition go_unquote (lit : list N) : option (list N) :=
 
 Definition hex_digit (d : N) : N := if d <? 10 then 48 + d else 87 + d.
 
-Definition invalid_marker : N := 1114112.   (* not a rune: an undecodable byte *)
-
 Definition json_esc_rune (r : N) : list N :=
-  if r =? invalid_marker then [92; 117; 102; 102; 102; 100]           (* � *)
-  else if r <? 128 then
+  if r <? 128 then
     if (r =? 92) || (r =? 34) then [92; r]
     else if r =? 8 then [92; 98]
     else if r =? 12 then [92; 102]
@@ -130,9 +127,17 @@ Definition json_esc_rune (r : N) : list N :=
   else if (r =? 8232) || (r =? 8233) then [92; 117; 50; 48; 50; hex_digit (r mod 16)]
   else [r].
 
+(** An undecodable byte is written as the escape \ufffd; a genuine U+FFFD
+    in the string is copied. *)
+Definition json_esc_item (o : option N) : list N :=
+  match o with
+  | Some r => json_esc_rune r
+  | None => [92; 117; 102; 102; 102; 100]
+  end.
+
 (** Output as runes (the bytes json.Marshal writes are their UTF-8 encoding). *)
 Definition json_quote (bs : list N) : list N :=
-  34 :: flat_map json_esc_rune (utf8_decode_with invalid_marker bs) ++ [34].
+  34 :: flat_map json_esc_item (utf8_decode_opt bs) ++ [34].
 
 (** ** strconv.Quote (the printer's strings and quoted keys).
     [is_print] is unicode.IsPrint, kept abstract. *)
